@@ -189,6 +189,8 @@ func c12Scenarios(tier mc.Tier) []mc.Scenario {
 			}
 		}
 	}
+	// a certificate whose distribution points are [ldap, http] and one with a single https point: the documented shapes still hold
+	out = append(out, mc.Scenario{Name: "C12-non-http-distribution-points", Bound: 1, Body: c12NonHTTP, Params: map[string]string{"chain": "3", "shapes": "[ldap,http] and [https]"}})
 	for _, p := range []purposeKind{purposeCS, purposeTS} {
 		p := p
 		out = append(out, mc.Scenario{Name: "C12-invalid-chains-" + pn[p], Bound: 1, Body: func(c *mc.Ctx) { c12Invalid(c, p) }, Params: map[string]string{"purpose": pn[p]}})
@@ -386,3 +388,52 @@ func init() {
 }
 
 func firstRet(a, b []chainMod) []chainMod { return a }
+
+var (
+	c12NHOnce sync.Once
+	c12NHW    *revWorld
+)
+
+// c12NonHTTP: certificate 0 names [ldap://…, http://…] distribution points, certificate 1 a single https://… one (no responders).
+func c12NonHTTP(c *mc.Ctx) {
+	c12NHOnce.Do(func() {
+		c12NHW = newRevWorldURLs(3, []int{0, 0}, []int{2, 1}, purposeCS, func(kind string, ci, j int) (string, bool) {
+			switch {
+			case kind == "crl" && ci == 0 && j == 0:
+				return "ldap://crl.test/c0/ldap", true
+			case kind == "crl" && ci == 1 && j == 0:
+				return "https://crl.test/c1/https", true
+			}
+			return "", false
+		})
+	})
+	w := c12NHW
+	cls := c.Choose("crl[c0,http]", len(crlClassNames))
+	tr := &netsim.Transport{}
+	tr.Handler = func(r *netsim.Request, raw *http.Request) netsim.Answer {
+		src, ok := parseSource(r.URL)
+		if !ok || src.kind != "crl" {
+			return netsim.Answer{Status: 404}
+		}
+		return w.serveCRL(src, crlByName(crlClassNames[cls]))
+	}
+	chain := pki.X509s(w.certs)
+	c.Statef("non-http points, http point answers %s", crlClassNames[cls])
+	for _, entry := range []string{"validatecontext", "validate"} {
+		res, err, pan := runEntry(entry, purposeCS, tr, chain)
+		if pan != nil || err != nil || len(res) != 3 {
+			c.Fail("C12 valid chain not processed", "entry %s: panic=%v err=%v", entry, pan, err)
+			return
+		}
+		for _, why := range shapeViolations(chain, res, "validate") {
+			c.Fail("C12 "+entry+" result-shape: "+stripDigits(why), "%s", why)
+		}
+		// a distribution point that cannot be fetched is a failed point: the certificate cannot be OK
+		for i := 0; i < 2; i++ {
+			c.Outcome(fmt.Sprintf("non-http:%s", res[i].Result))
+			if res[i].Result == result.ResultOK || res[i].Result == result.ResultNonRevokable {
+				c.Fail("C12 "+entry+" certificate with an unfetchable distribution point is "+res[i].Result.String(), "cert %d: %d server results", i, len(res[i].ServerResults))
+			}
+		}
+	}
+}
